@@ -57,7 +57,7 @@ def run(tier):
     ck.coverage["programs_discarded_by_model"] = discarded
     return ck.finish("import graphs over 2-6 generated modules (ok / missing / uncompilable / failing; forward, backward "
                      "and self edges; imports at top level, in functions, in try blocks, aliased, repeated) against the "
-                     "model's registry, on the hooked and the dev build; non-trivial = distinct graph in which at least "
+                     "model's registry, module globals of every value kind read / called through the module object, and multi-run histories (imports dying half-way, suspended in a fiber, re-imported later; no body may run twice), on the hooked and the dev build; non-trivial = distinct graph in which at least "
                      "one module body ran")
 
 
